@@ -266,6 +266,7 @@ def run(rng, res, tier, shard, nshards):
     while budget.more():
         cfg = Cfg(max_assets=rng.choice([4, 6, 8]), inherit_bias=rng.choice([0.7, 0.85, 0.95]), max_depth=2,
                   max_assocs=3)
+        cfg.large = rng.random() < 0.04         # 10-16 types with a chain of depth 8
         spec = gen_language(rng, cfg)
         lang = Lang(spec)
         hist = gen_history(rng, lang, rng.randint(1, 30))
